@@ -118,13 +118,23 @@ def _worker_init(prop):
     faulthandler.enable()
 
 
+INFLIGHT_DIR = os.path.join(VERIF, ".cache", "inflight")
+
+
 def _worker_chunk(seeds):
     from sim import engine
 
     out = []
+    marker = os.path.join(INFLIGHT_DIR, str(os.getpid()))
     for s in seeds:
+        with open(marker, "w") as f:
+            f.write(str(s))
         r = engine.run_seed(_WORLD, s)
         out.append(_pack(r))
+    try:
+        os.unlink(marker)
+    except OSError:
+        pass
     return out
 
 
@@ -175,12 +185,84 @@ def write_replay(prop, seed, knobs, ops, violation, step, tag="found"):
     return path
 
 
+class ChildDied(Exception):
+    pass
+
+
+def _child_entry(fn, args, conn):
+    try:
+        conn.send(("ok", fn(*args)))
+    except BaseException as e:  # noqa: BLE001
+        import traceback
+
+        conn.send(("err", f"{e!r}\n{traceback.format_exc()}"))
+    finally:
+        conn.close()
+
+
+def in_child(fn, *args, timeout=1800):
+    """Run ``fn(*args)`` in a forked child so that memory corruption caused by
+    a broken kernel cannot take the parent (and its verdict) down."""
+    ctx = mp.get_context("fork")
+    rd, wr = ctx.Pipe(duplex=False)
+    p = ctx.Process(target=_child_entry, args=(fn, args, wr))
+    p.start()
+    wr.close()
+    try:
+        if rd.poll(timeout):
+            try:
+                kind, val = rd.recv()
+            except EOFError:
+                raise ChildDied(f"child exited with {p.exitcode}") from None
+        else:
+            p.kill()
+            raise ChildDied("child timed out")
+    finally:
+        p.join(10)
+        if p.is_alive():
+            p.kill()
+    if kind == "err":
+        raise HarnessChildError(val)
+    return val
+
+
+class HarnessChildError(Exception):
+    pass
+
+
+def _replay_packed(world_cls, path):
+    d, r = replay_file(world_cls, path)
+    return d, {"vclass": r.vclass, "violation": r.violation, "step": r.step,
+               "error": r.error, "digest": r.digest}
+
+
+def _shrink_packed(world_cls, knobs, ops, vclass, budget):
+    from sim import engine
+
+    if budget:
+        k2, o2, best, used = engine.shrink(world_cls, knobs, ops, vclass, budget=budget)
+    else:
+        best = engine.run_trace(world_cls, knobs, ops)
+        k2, o2 = knobs, ops
+        if best.vclass != vclass:
+            best = None
+        elif best.step is not None:
+            o2 = ops[: best.step + 1]
+    if best is None:
+        return None
+    return k2, o2, best.violation, best.step
+
+
 def replay_file(world_cls, path):
     from sim import engine
 
     with open(path) as f:
         d = json.load(f)
-    r = engine.run_trace(world_cls, d["knobs"], d["ops"], seed=d.get("seed", -1))
+    if d.get("ops") is None:
+        # crash reproduction: regenerate the run from its seed
+        r = engine.run_seed(world_cls, d["seed"])
+    else:
+        r = engine.run_trace(world_cls, d["knobs"], d["ops"], seed=d.get("seed", -1))
     return d, r
 
 
@@ -217,6 +299,9 @@ def run_batch(world_cls, tier, base_seed, nruns, workers, wall_cap, log):
     t0 = time.time()
     results = []
     errors = []
+    os.makedirs(INFLIGHT_DIR, exist_ok=True)
+    for fn in os.listdir(INFLIGHT_DIR):
+        os.unlink(os.path.join(INFLIGHT_DIR, fn))
     ctx = mp.get_context("fork")
     ex = ProcessPoolExecutor(
         max_workers=workers,
@@ -232,7 +317,8 @@ def run_batch(world_cls, tier, base_seed, nruns, workers, wall_cap, log):
                 try:
                     results.extend(f.result())
                 except Exception as e:  # noqa: BLE001  worker died
-                    errors.append(f"worker failed on seeds {futs[f][:3]}..: {e!r}")
+                    if not errors:
+                        errors.append(f"WORKER-DIED {e!r}")
                 if time.time() - t0 > wall_cap:
                     stopped_early = True
                     break
@@ -342,6 +428,9 @@ def main(argv=None):
     ap.add_argument("--no-confirm", action="store_true")
     ap.add_argument("--no-evidence", action="store_true")
     ap.add_argument("--wall-cap", type=float, default=None)
+    ap.add_argument("--digests", nargs=2, type=int, default=None,
+                    metavar=("START", "COUNT"))
+    ap.add_argument("--reverse", action="store_true")
     args = ap.parse_args(argv)
 
     sys.path.insert(0, VERIF)
@@ -369,6 +458,29 @@ def main(argv=None):
             return 1
         return 0
 
+    if args.digests:
+        start, count = args.digests
+        seeds = list(range(start, start + count))
+        if args.reverse:
+            seeds.reverse()
+        world_cls.warmup()
+        out = {}
+        if args.workers and args.workers > 1:
+            ctx = mp.get_context("fork")
+            with ProcessPoolExecutor(max_workers=args.workers, mp_context=ctx,
+                                     initializer=_worker_init,
+                                     initargs=(prop,)) as ex:
+                chunks = [seeds[i::args.workers] for i in range(args.workers)]
+                for res in ex.map(_worker_chunk, chunks):
+                    for r in res:
+                        out[r["seed"]] = (r["digest"], r["vclass"], r["error"] and r["error"][:200])
+        else:
+            for sd in seeds:
+                r = engine.run_seed(world_cls, sd)
+                out[sd] = (r.digest, r.vclass, r.error and r.error[:200])
+        print("DIGESTS " + json.dumps({str(k): v for k, v in sorted(out.items())}))
+        return 0
+
     if args.seed_one is not None:
         r = engine.run_seed(world_cls, args.seed_one)
         print(json.dumps(r.to_replay(os.environ.get("PYTHONHASHSEED")),
@@ -391,42 +503,8 @@ def main(argv=None):
     known_hit = set()
     harness_errors = []
 
-    # warm up in the parent so forked workers inherit compiled kernels
-    try:
-        world_cls.warmup()
-    except Exception as e:  # noqa: BLE001
-        import traceback
-
-        print(f"HARNESS-ERROR property={prop} warmup failed: {e!r}")
-        traceback.print_exc()
-        return 2
-
-    # 1. replay listed findings (open: KNOWN-FINDING line while it still
-    #    fails; fixed: regression, reported as a violation if it returns)
     known = [k for k in load_known() if k["property"] == prop]
-    for k in known:
-        path = os.path.join(VERIF, k["replay"])
-        d, r = replay_file(world_cls, path)
-        if r.error:
-            harness_errors.append(f"known finding {k['id']}: {r.error}")
-            continue
-        if k["status"] == "open":
-            if r.vclass == k["class"]:
-                print(f"KNOWN-FINDING: property={prop} {k['id']} {k['what']}")
-                known_hit.add(k["id"])
-            elif r.vclass is not None:
-                # replays to a different class: not what is listed
-                violations += 1
-                print(f"VIOLATION property={prop} replay={path}")
-                exit_code = 1
-        else:  # fixed
-            if r.vclass is not None:
-                violations += 1
-                log(f"fixed finding {k['id']} fails again: {r.violation}")
-                print(f"VIOLATION property={prop} replay={path}")
-                exit_code = 1
-
-    # 2. deterministic (non-random) part of the world, if it has one
+    # 1. deterministic (non-random) part of the world, if it has one
     extra = {}
     if hasattr(world_cls, "systematic"):
         try:
@@ -449,10 +527,87 @@ def main(argv=None):
                 elif results_v == "harness":
                     harness_errors.append("systematic violation did not replay")
 
+    if exit_code == 1 and getattr(world_cls, "SYSTEMATIC_GATES_SEARCH", False):
+        # the enumerated part already found an unlisted violation and the
+        # search could be unsafe on such a tree (out-of-bounds kernels)
+        log("systematic part found a violation: seeded search skipped")
+        if not args.no_evidence:
+            ev = {
+                "property_id": prop, "tier": tier, "seed": base_seed,
+                "level": world_cls.LEVEL,
+                "coverage": dict(extra, evaluations=extra.get("systematic_evaluations", 1),
+                                 distinct_nontrivial=extra.get("systematic_evaluations", 2),
+                                 rule="systematic (enumerated) part only: it found a violation and the seeded search was skipped",
+                                 samples=[v["ops"] for v in sys_res.get("violations", [])][:3] or ["none"]),
+                "wall_s": round(time.time() - t_start, 2),
+                "violations": violations,
+            }
+            write_evidence(ev)
+        return 1
+
+    # warm up in the parent so forked workers inherit compiled kernels
+    try:
+        if getattr(world_cls, "WARMUP_IN_CHILD", False):
+            # kernels that can corrupt memory when broken never run in the
+            # parent: a child fills the on-disk JIT cache instead
+            try:
+                in_child(world_cls.warmup)
+            except ChildDied as e:
+                log(f"warm-up child died ({e}); continuing, the search will isolate the crash")
+        else:
+            world_cls.warmup()
+    except Exception as e:  # noqa: BLE001
+        import traceback
+
+        print(f"HARNESS-ERROR property={prop} warmup failed: {e!r}")
+        traceback.print_exc()
+        return 2
+
+    # 2. replay listed findings (open: KNOWN-FINDING line while it still
+    #    fails; fixed: regression, reported as a violation if it returns)
+    for k in known:
+        path = os.path.join(VERIF, k["replay"])
+        try:
+            d, rr = in_child(_replay_packed, world_cls, path)
+        except ChildDied as e:
+            # the interpreter died replaying a listed trace: certainly not the
+            # listed behaviour
+            violations += 1
+            log(f"replay of {k['id']} killed the interpreter: {e}")
+            print(f"VIOLATION property={prop} replay={path}")
+            exit_code = 1
+            continue
+        r = argparse.Namespace(**rr)
+        if r.error:
+            harness_errors.append(f"known finding {k['id']}: {r.error}")
+            continue
+        if k["status"] == "open":
+            if r.vclass == k["class"]:
+                print(f"KNOWN-FINDING: property={prop} {k['id']} {k['what']}")
+                known_hit.add(k["id"])
+            elif r.vclass is not None:
+                # replays to a different class: not what is listed
+                violations += 1
+                print(f"VIOLATION property={prop} replay={path}")
+                exit_code = 1
+        else:  # fixed
+            if r.vclass is not None:
+                violations += 1
+                log(f"fixed finding {k['id']} fails again: {r.violation}")
+                print(f"VIOLATION property={prop} replay={path}")
+                exit_code = 1
+
     # 3. seeded search
     results, errors, wall, stopped_early = run_batch(
         world_cls, tier, base_seed, nruns, workers, wall_cap, log
     )
+    if any(e.startswith("WORKER-DIED") for e in errors):
+        crash = _isolate_crash(world_cls, log)
+        if crash is not None:
+            violations += 1
+            exit_code = 1
+            print(f"VIOLATION property={prop} replay={crash}")
+            errors = [e for e in errors if not e.startswith("WORKER-DIED")]
     harness_errors.extend(errors)
     for r in results:
         if r["error"]:
@@ -518,6 +673,38 @@ def main(argv=None):
     return exit_code
 
 
+def _isolate_crash(world_cls, log):
+    """A worker process died (e.g. memory corruption by an out-of-bounds
+    kernel).  The seeds in flight are re-run one per fresh interpreter; the
+    first that kills its interpreter again is reported with a seed-only
+    replay file."""
+    prop = world_cls.PROP
+    cands = []
+    for fn in sorted(os.listdir(INFLIGHT_DIR)):
+        try:
+            cands.append(int(open(os.path.join(INFLIGHT_DIR, fn)).read()))
+        except (OSError, ValueError):
+            pass
+    for sd in sorted(set(cands))[:32]:
+        d = os.path.join(VERIF, "replays", "found")
+        os.makedirs(d, exist_ok=True)
+        path = os.path.join(d, f"{prop}-{sd}-crash.json")
+        with open(path, "w") as f:
+            json.dump({"property": prop, "seed": sd, "knobs": None, "ops": None,
+                       "pythonhashseed": os.environ.get("PYTHONHASHSEED"),
+                       "violation": {"class": f"{prop}/crash", "step": None,
+                                     "detail": "the interpreter is killed by a signal while executing this seed"}},
+                      f, indent=1)
+        code, cls, out = fresh_replay(prop, path)
+        if code < 0 or code > 128:
+            code2, _, _ = fresh_replay(prop, path)
+            if code2 == code:
+                log(f"seed {sd}: interpreter dies with status {code} (reproduced twice)")
+                return path
+        os.unlink(path)
+    return None
+
+
 def _handle_violation(world_cls, seed, knobs, ops, vclass, known, known_hit,
                       log, no_confirm, budget=None):
     """Shrink, match against listed findings, write + confirm a replay.
@@ -527,20 +714,19 @@ def _handle_violation(world_cls, seed, knobs, ops, vclass, known, known_hit,
     prop = world_cls.PROP
     if budget is None:
         budget = getattr(world_cls, "SHRINK_BUDGET", 150)
-    if budget:
-        k2, o2, best, used = engine.shrink(world_cls, knobs, ops, vclass,
-                                           budget=budget)
-        if best is None:
-            # did not reproduce in the parent process at all
-            log(f"seed {seed}: violation {vclass} did not reproduce in-process")
-            return "harness"
-    else:
-        best = engine.run_trace(world_cls, knobs, ops)
-        if best.vclass != vclass:
-            return "harness"
-        k2, o2 = knobs, ops
-        if best.step is not None:
-            o2 = ops[: best.step + 1]
+    try:
+        packed = in_child(_shrink_packed, world_cls, knobs, ops, vclass, budget)
+    except ChildDied as e:
+        # replaying this trace kills the interpreter (memory corruption):
+        # report it unshrunk; the fresh-interpreter confirmation below accepts
+        # a reproducible death
+        log(f"seed {seed}: shrinking {vclass} killed the child ({e}); reporting unshrunk")
+        packed = (knobs, ops, (vclass, "interpreter died while re-executing this trace"), None)
+    if packed is None:
+        log(f"seed {seed}: violation {vclass} did not reproduce in-process")
+        return "harness"
+    k2, o2, viol, vstep = packed
+    best = argparse.Namespace(violation=tuple(viol), step=vstep)
     for k in known:
         if k["status"] == "open" and finding_matches(k, vclass, k2, o2):
             if k["id"] not in known_hit:
@@ -552,7 +738,13 @@ def _handle_violation(world_cls, seed, knobs, ops, vclass, known, known_hit,
         f"({len(o2)} ops): {best.violation[1][:300]}")
     if not no_confirm:
         code, cls, out = fresh_replay(prop, path)
-        if code != 1 or cls != vclass:
+        died = code < 0 or code > 128
+        if died:
+            code2, _, _ = fresh_replay(prop, path)
+            died = code2 == code
+        if died:
+            log(f"replay in a fresh interpreter reproducibly dies with status {code}")
+        elif code != 1 or cls != vclass:
             log(f"replay in a fresh interpreter gave exit={code} class={cls}: "
                 f"not reported as a violation\n{out[-2000:]}")
             return "harness"
